@@ -444,6 +444,85 @@ def generate_builder(repo):
     return "\n".join(out)
 
 
+# ------------------------------------------------------------------------------------------------ constructors
+
+def _find_assign(fn, name):
+    for st in ast.walk(fn):
+        if isinstance(st, ast.Assign) and len(st.targets) == 1 and ast.unparse(st.targets[0]) == name:
+            return st
+    raise Untranslatable(f"no assignment to {name}")
+
+
+def _find_call(fn, text):
+    for st in ast.walk(fn):
+        if isinstance(st, ast.Call) and ast.unparse(st.func) == text:
+            return st
+    raise Untranslatable(f"no call of {text}")
+
+
+def _kw(call, name):
+    for k in call.keywords:
+        if k.arg == name:
+            return k.value
+    raise Untranslatable(f"{ast.unparse(call.func)}: no keyword {name}")
+
+
+class MC(M):
+    """M plus exact_log2() as the generated total function xlog2 (bit_length(n - 1))"""
+    def call(self, n, env):
+        if isinstance(n.func, ast.Name) and n.func.id == "exact_log2" and len(n.args) == 1 and not n.keywords:
+            return V(f"(xlog2 {asZ(self.expr(n.args[0], env))})", "Z")
+        return super().call(n, env)
+
+
+def generate_ctors(repo):
+    """The integer arithmetic of three constructors: WishboneCSRBridge (ratio, Wishbone address width, published
+    map geometry) and csr.EventMonitor (reg_size, addr_width, the MemoryMap and add_resource arguments)."""
+    out = ["(* GENERATED on every run by harness/translate2.py from /repo's current source. Do not edit. *)",
+           "From Coq Require Import ZArith Bool.", "From Soc Require Import Lib.Bits.", "Open Scope Z_scope.", "",
+           "(* amaranth.utils.exact_log2 on its domain: (n - 1).bit_length() *)",
+           "Definition xlog2 (n : Z) : Z := if n - 1 <=? 0 then 0 else Z.log2 (n - 1) + 1.", ""]
+    m = MC({"calls": {}, "state": [], "ret": None})
+    # --- WishboneCSRBridge.__init__
+    tree = ast.parse(open(os.path.join(repo, "amaranth_soc/csr/wishbone.py")).read())
+    fn = find_func(tree, ["WishboneCSRBridge", "__init__"])
+    env = {"data_width": V("data_width", "Z"), "csr_bus.data_width": V("csr_data_width", "Z"),
+           "csr_bus.addr_width": V("csr_addr_width", "Z")}
+    ratio = asZ(m.expr(_find_assign(fn, "ratio").value, env))
+    sig = _find_call(fn, "wishbone.Signature")
+    env2 = dict(env); env2["ratio"] = V("ratio", "Z")
+    aw = asZ(m.expr(_kw(sig, "addr_width"), env2))
+    if ast.unparse(_kw(sig, "data_width")) != "data_width" or ast.unparse(_kw(sig, "granularity")) != "csr_bus.data_width":
+        raise Untranslatable("WishboneCSRBridge: Signature data_width / granularity arguments changed")
+    mm = _find_call(fn, "MemoryMap")
+    if [(k.arg, ast.unparse(k.value)) for k in mm.keywords] != [("addr_width", "csr_bus.addr_width"), ("data_width", "csr_bus.data_width")]:
+        raise Untranslatable("WishboneCSRBridge: the published MemoryMap geometry changed")
+    dflt = [st for st in ast.walk(fn) if isinstance(st, ast.If) and ast.unparse(st.test) == "data_width is None"]
+    if len(dflt) != 1 or [ast.unparse(x) for x in dflt[0].body] != ["data_width = csr_bus.data_width"] or dflt[0].orelse:
+        raise Untranslatable("WishboneCSRBridge: the data_width default changed")
+    out += ["(* amaranth_soc/csr/wishbone.py: WishboneCSRBridge.__init__ *)",
+            f"Definition gen_wbcsr_ratio (data_width csr_data_width : Z) : Z := {ratio}.",
+            f"Definition gen_wbcsr_addr_width (csr_addr_width ratio : Z) : Z := {aw}.", ""]
+    # --- csr.EventMonitor.__init__
+    tree = ast.parse(open(os.path.join(repo, "amaranth_soc/csr/event.py")).read())
+    fn = find_func(tree, ["EventMonitor", "__init__"])
+    env = {"event_map.size": V("n", "Z"), "data_width": V("data_width", "Z"), "alignment": V("alignment", "Z")}
+    rs = asZ(m.expr(_find_assign(fn, "reg_size").value, env))
+    env2 = dict(env); env2["reg_size"] = V("reg_size", "Z")
+    aw = asZ(m.expr(_find_assign(fn, "addr_width").value, env2))
+    mm = _find_call(fn, "MemoryMap")
+    if [(k.arg, ast.unparse(k.value)) for k in mm.keywords] != [("addr_width", "addr_width"), ("data_width", "data_width"), ("alignment", "alignment")]:
+        raise Untranslatable("EventMonitor: the MemoryMap arguments changed")
+    adds = [st for st in ast.walk(fn) if isinstance(st, ast.Call) and ast.unparse(st.func) == "memory_map.add_resource"]
+    if [ast.unparse(a) for a in adds] != ["memory_map.add_resource(self._enable, size=reg_size, name=('enable',))",
+                                         "memory_map.add_resource(self._pending, size=reg_size, name=('pending',))"]:
+        raise Untranslatable("EventMonitor: the two add_resource calls changed: " + str([ast.unparse(a) for a in adds]))
+    out += ["(* amaranth_soc/csr/event.py: EventMonitor.__init__ *)",
+            f"Definition gen_evmon_reg_size (n data_width : Z) : Z := {rs}.",
+            f"Definition gen_evmon_addr_width (reg_size alignment : Z) : Z := {aw}.", ""]
+    return "\n".join(out)
+
+
 def generate(repo):
     out = ["(* GENERATED on every run by harness/translate2.py from /repo's current source. Do not edit. *)",
            "From Coq Require Import ZArith Bool.", "From Soc Require Import Lib.Bits Lib.Res.",
